@@ -119,7 +119,7 @@ impl Matcher for PermMatcher {
                     file_info.path().to_string_lossy(),
                     e
                 )
-                .unwrap();
+                .ok();
                 false
             }
         }
@@ -131,7 +131,7 @@ impl Matcher for PermMatcher {
             &mut stderr(),
             "Permission matching not available on this platform!"
         )
-        .unwrap();
+        .ok();
         return false;
     }
 }
